@@ -67,21 +67,24 @@ func parseTime(in string) (time.Time, error) {
 	var nsec int
 	if c == '.' || c == ',' {
 		remaining = remaining[1:]
-		// Fractional seconds!
+		// Fractional seconds! Digits beyond nanosecond precision are dropped.
 		var val, i int
-		var c rune
 		var mult int = 1e9
-		for i, c = range remaining {
-			if c >= '0' && c <= '9' {
-				val = val*10 + int(c-'0')
-				mult /= 10
-			} else {
-				i -= 1
+		for i = 0; i < len(remaining); i++ {
+			c := remaining[i]
+			if c < '0' || c > '9' {
 				break
 			}
+			if mult > 1 {
+				val = val*10 + int(c-'0')
+				mult /= 10
+			}
+		}
+		if i == 0 {
+			return time.Time{}, fmt.Errorf("fractional seconds without digits")
 		}
 		nsec = val * mult
-		remaining = remaining[i+1:]
+		remaining = remaining[i:]
 		if len(remaining) == 0 {
 			return time.Time{}, fmt.Errorf("too short to contain timezone")
 		}
